@@ -58,7 +58,8 @@ def generate(R, tier):
             "var_env": ve, "var_rep": vr, "var_err": vx, "vclass": vclass,
             "h2": (None if R.random() < 0.6 else {"which": R.choice(["h2", "H2"]), "value": R.choice([1.0, 0.5, 0.25, 0.9, R.random() * 0.98 + 0.01])}),
             "rng": {"kind": R.choice(["Generator", "Generator", "RandomState"]), "seed": R.randrange(1 << 30)},
-            "est": {"shuffle": R.randrange(1 << 30), "perm": R.randrange(1 << 30), "drop": R.randint(0, 2), "extra": R.randint(0, 2), "unphased": R.random() < 0.5}}
+            "est": {"shuffle": R.randrange(1 << 30), "perm": R.randrange(1 << 30), "drop": R.randint(0, 2), "extra": R.randint(0, 2), "unphased": R.random() < 0.5,
+                    "dup": R.choice([0, 0, 0, 1, 2])}}
 
 
 def shrink(sc):
@@ -82,8 +83,8 @@ def shrink(sc):
         c = copy.deepcopy(sc)
         c["h2"] = None
         yield c
-    for k in ("drop", "extra"):
-        if sc["est"][k]:
+    for k in ("drop", "extra", "dup"):
+        if sc["est"].get(k):
             c = copy.deepcopy(sc)
             c["est"][k] = 0
             yield c
@@ -286,6 +287,11 @@ def execute(sc):
     keep = list(range(nt))
     R3.shuffle(keep)
     keep = keep[:max(1, nt - est["drop"])] if nt > 1 else keep
+    if est.get("dup"):
+        # a genotype matrix may list an individual more than once (e.g. select_taxa with repeated indices)
+        keep = keep + [R3.choice(keep) for _ in range(est["dup"])]
+        R3.shuffle(keep)
+        faults["taxon_listed_twice_in_genotypes"] = 1
     gt = pg.select_taxa(keep)
     extra = ["X%d" % i for i in range(est["extra"])]
     gtaxa = [names[i] for i in keep] + extra
